@@ -76,6 +76,8 @@ def history(rng, length):
                   'dur': {'kind': 'hash', 'salt': rng.randint(0, 99), 'unit': 0.005}}
             if rng.random() < .3:
                 op['worker_lifespan'] = rng.choice([1, 2])
+            if rng.random() < .25:
+                op['progress_bar'] = True
             q = rng.random()
             out = 'ok'
             if q < .3:
@@ -108,7 +110,14 @@ def history(rng, length):
                     open_gen = True
             ops.append(op)
             mops.append('C:%d:%d:%s:0:-' % (kind in ('map', 'imap'), p, out))
-    return {'seed': rng.randint(0, 10 ** 6), 'pool': pool, 'ops': ops, 'model_ops': mops, 'latency_bound': 5.0, 'same_func': rng.random() < .5}
+    if not pool.get('keep_alive') and not any(o.get('what') == 'keep_alive' or o['op'] == 'apply_batch' for o in ops):
+        # (apply submissions leave their workers running, like keep_alive: hook accounting per call only makes sense without them)
+        # exit results are per call: a call never reports what the worker_exit functions of an earlier call returned
+        for o in ops:
+            if o['op'] in oracles.MAPS and not o.get('fail') and 'consume' not in o and not o.get('expect_rejected') and rng.random() < .5:
+                o['init'] = o['exit'] = True
+    return {'seed': rng.randint(0, 10 ** 6), 'pool': pool, 'ops': ops, 'model_ops': mops, 'latency_bound': 5.0, 'same_func': rng.random() < .5,
+            'relax_shape': any(o['op'] == 'apply_batch' for o in ops)}
 
 
 def snap_tok(c):
@@ -135,7 +144,7 @@ def run(chk):
         except Exception:
             pass
     scs = corpus + [history(rng, rng.randint(2, L)) for _ in range(250 if chk.tier == 'quick' else 4000)]
-    obs = run_scenarios(chk, 'random histories with failures on one pool (DetSim): successful calls == sequential evaluation', scs, {'C06', 'C01', 'C02', 'C03', 'C05'},
+    obs = run_scenarios(chk, 'random histories with failures on one pool (DetSim): successful calls == sequential evaluation', scs, {'C06', 'C01', 'C02', 'C03', 'C05', 'C11', 'C12'},
                         nontrivial=lambda sc, o: len(sc['ops']) >= 3,
                         dist=lambda sc, o: {'length': len(sc['ops']), 'start': sc['pool']['start_method'],
                                             'failures': sum(1 for m in sc['model_ops'] if ':fail:' in m), 'open_or_closed': sum(1 for m in sc['model_ops'] if ':open:' in m or ':closed:' in m)})
@@ -152,6 +161,10 @@ def run(chk):
             # … and one that was closed early may have finished internally before it was closed (then nothing is terminated)
             if ':closed:' in m and oo.get('outcome') == 'ok' and not oo['control']['exception_thrown']:
                 mops[k] = m.replace(':closed:', ':ok:')
+            # workers started by apply submissions stay: a worker_init that is meant to fail is not run again on them
+            if ':fail:' in m and (sc['ops'][k].get('fail') or {}).get('init') and oo.get('outcome') == 'ok' and \
+                    not any(r.get('opi') == k for r in o.get('raised', [])):
+                mops[k] = m.replace(':fail:', ':ok:')
             # worker_init of an apply batch only runs when this batch started the workers (running workers are used as they are)
             if ':poolfailed:' in m and not any(c[0] == k and c[1] == 'init' for c in o.get('calls', [])):
                 mops[k] = m.replace(':poolfailed:', ':settled:')
